@@ -149,12 +149,40 @@ def frames(nums):
     return out
 
 
-def run_model(indir):
+def run_model(indir, shards=14):
+    """Evaluate every case with the extracted model, sharded over several runner processes (the runner is
+    a line-by-line filter; shards are balanced by input size and the answers reassembled in order)."""
+    from concurrent.futures import ThreadPoolExecutor
     runner = os.path.join(BUILD, "runner")
-    with open(os.path.join(indir, "cases.in")) as fin, open(os.path.join(indir, "cases.model"), "w") as fout:
-        p = subprocess.run(["bash", "-c", "ulimit -s unlimited 2>/dev/null; exec " + runner], stdin=fin, stdout=fout, stderr=subprocess.PIPE, timeout=7200)
-    if p.returncode != 0:
-        infra_fail("model runner failed", p.stderr.decode()[-2000:])
+    lines = open(os.path.join(indir, "cases.in")).read().splitlines()
+    n = len(lines)
+    k = max(1, min(shards, n))
+    load = [0] * k
+    member = [[] for _ in range(k)]
+    for i in sorted(range(n), key=lambda i: -len(lines[i])):
+        j = load.index(min(load))
+        member[j].append(i)
+        load[j] += len(lines[i]) + 1
+
+    def work(j):
+        idx = sorted(member[j])
+        data = "".join(lines[i] + "\n" for i in idx).encode()
+        p = subprocess.run(["bash", "-c", "ulimit -s unlimited 2>/dev/null; exec " + runner], input=data,
+                           stdout=subprocess.PIPE, stderr=subprocess.PIPE, timeout=7200)
+        if p.returncode != 0:
+            infra_fail("model runner failed", p.stderr.decode()[-2000:])
+        out = p.stdout.decode().splitlines()
+        if len(out) != len(idx):
+            infra_fail("model runner answered %d lines for %d cases" % (len(out), len(idx)))
+        return idx, out
+    res = [None] * n
+    with ThreadPoolExecutor(max_workers=k) as ex:
+        for idx, out in ex.map(work, range(k)):
+            for i, o in zip(idx, out):
+                res[i] = o
+    with open(os.path.join(indir, "cases.model"), "w") as f:
+        for o in res:
+            f.write(o + "\n")
 
 
 def vm_sample(indir, max_cases=12, max_numbers=2500):
